@@ -9,15 +9,29 @@ pub enum Tier {
     Thorough,
 }
 
+/// periods around powers of two and other boundaries (chunked loops, narrow counters)
+pub const SPECIAL_PERIODS: [usize; 25] = [1, 2, 3, 4, 7, 8, 9, 15, 16, 17, 31, 32, 33, 63, 64, 65, 100, 127, 128, 129, 255, 256, 257, 512, 1024];
+
 pub fn random_period(rng: &mut Rng, tier: Tier) -> usize {
     if rng.chance(0.35) {
         return rng.range(1, 5);
     }
+    if rng.chance(0.08) {
+        let cap = match tier {
+            Tier::Quick => 19, // up to 129 in quick
+            Tier::Thorough => 25,
+        };
+        let k = rng.below(cap as u64) as usize;
+        // the largest ones rarely: their runs are long
+        if SPECIAL_PERIODS[k] <= 65 || rng.chance(0.15) {
+            return SPECIAL_PERIODS[k];
+        }
+    }
     match tier {
         Tier::Quick => {
             // mostly <= 64; a thin tail of large windows (chunked/truncated loops only show there)
-            if rng.chance(0.02) {
-                rng.log_range(64, 400)
+            if rng.chance(0.015) {
+                rng.log_range(64, 1200)
             } else {
                 rng.log_range(1, 64)
             }
